@@ -5,7 +5,10 @@
 // internal/stats/utest.go), DistFacts (C12, internal/stats numeric constants), NothingFacts (C13,
 // benchmath/anone.go + sample.go), CmdFacts (C14, cmd/benchstat/main.go), LegacyFacts (C17,
 // benchstat/{data,table,scaler}.go), SeriesFacts (C18, benchseries/benchseries.go), DbFacts
-// (C19/C20, storage/db/db.go). Conventions of the output: /verif/notes/FACTS.md.
+// (C19/C20, storage/db/db.go), NumFacts (C03, benchfmt/internal/bytesconv + reader.go atof),
+// ReadFacts (C02, benchfmt/reader.go + files.go), ParseFacts (C06/C07/C09, benchproc parse, special
+// keys, orders, sort.go), TabFacts (C16, benchtab/texttab table.go), WriteFacts (C01,
+// benchfmt/writer.go). Conventions of the output: /verif/notes/FACTS.md.
 package main
 
 import (
